@@ -11,7 +11,7 @@ RULE = ('every report command with the output sink failing from byte offset k, f
         'non-trivial = k strictly inside the report; distinct by (command, input hash, k)')
 ASSUMPTIONS = ['SIGPIPE delivery and ENOSPC are exercised only by the real-binary runs']
 
-CMDS = [(['reg'], (), {}), (['reg'], (), {'oldReg': True}), (['reg'], (), {'singleElement': 'calories'}), (['reg'], (), {'singleElement': 'calories', 'groupFood': True}),
+CMDS = [(['reg'], (), {}), (['reg'], (), {'oldReg': True}), (['reg'], (), {'singleElement': 'calories'}), (['reg'], (), {'singleElement': 'calories', 'groupFood': True}), (['reg'], (), {'singleElement': 'calories', 'csv': True}),
         (['reg'], (), {'singleFood': 'a'}), (['bal'], (), {}), (['bal'], (), {'collapse': True}), (['bal'], (), {'singleElement': 'calories'}),
         (['report', 'totals'], (), {}), (['report', 'unresolved'], (), {}), (['report', 'quantity'], (), {}), (['report', 'element-total'], ('calories',), {}),
         (['csv', 'log'], (), {}), (['csv', 'database'], (), {}), (['csv', 'database-resolved'], (), {}),
